@@ -7,7 +7,7 @@ Local Open Scope Z_scope.
 (* level_pos for keys below the extra segment's key: no hypothesis on the extra segment is needed *)
 Theorem level_pos_low c eps keys ldk css g new T k J :
   keys <> [] -> sortedb keys = true -> nowrap (c_kt c) keys -> zlen keys < 2 ^ 32 -> 0 <= eps ->
-  concat g = fed_spec (c_kt c) keys -> Lv c eps (EvalOK c k) css g new ->
+  concat g = fed_spec (c_kt c) keys -> Lv c eps (EvalOKc (zlen keys + eps) c k) css g new ->
   tail_shape c ldk (zlen keys) (last new dseg) T ->
   wrapK (c_kt c) (ldk + 1) = ldk + 1 -> k <= ldk ->
   0 <= J -> J + 1 < zlen (new ++ T) ->
@@ -343,7 +343,7 @@ Section Main.
   Let ldk := last_z data.
 
   Theorem search_rec_pos q : c_epsrec c <> 0 -> q <= last_z data ->
-    float_ok c data (Z.max (hd 0 data) q) ->
+    float_ok_cap c data (Z.max (hd 0 data) q) ->
     exists pos tr,
       search_tr c ix q = Ok (mkApprox pos (PGM_SUB_EPS pos (c_eps c)) (PGM_ADD_EPS pos (c_eps c) n), tr) /\
       lb data q - c_eps c - 2 <= pos <= lb data q + c_eps c /\
@@ -423,7 +423,7 @@ Section Main.
   Qed.
 
   (* position and trace, for every EpsilonRecursive *)
-  Theorem search_pos q : q <= last_z data -> float_ok c data (Z.max (hd 0 data) q) ->
+  Theorem search_pos q : q <= last_z data -> float_ok_cap c data (Z.max (hd 0 data) q) ->
     exists pos tr,
       search_tr c ix q = Ok (mkApprox pos (PGM_SUB_EPS pos (c_eps c)) (PGM_ADD_EPS pos (c_eps c) n), tr) /\
       lb data q - c_eps c - 2 <= pos <= lb data q + c_eps c /\
@@ -440,7 +440,7 @@ Section Main.
   Proof. intros H. unfold search. rewrite H. reflexivity. Qed.
 
   (* C02 for queries up to the last key (see the end of the file for q > last key) *)
-  Theorem C02_search_partial q : q <= last_z data -> float_ok c data (Z.max (hd 0 data) q) ->
+  Theorem C02_search_partial_cap q : q <= last_z data -> float_ok_cap c data (Z.max (hd 0 data) q) ->
     exists a, search c ix q = Ok a /\
       0 <= a_lo a /\ a_lo a <= lb data q /\ lb data q <= a_hi a /\ a_hi a <= zlen data /\
       a_hi a - a_lo a <= 2 * c_eps c + 2 /\ a_lo a <= a_pos a.
@@ -453,7 +453,7 @@ Section Main.
   Qed.
 
   (* C01: every key of the data is found inside the returned range, for every EpsilonRecursive *)
-  Theorem C01_search q : In q data -> float_ok c data (Z.max (hd 0 data) q) ->
+  Theorem C01_search_cap q : In q data -> float_ok_cap c data (Z.max (hd 0 data) q) ->
     exists a, search c ix q = Ok a /\
       0 <= a_lo a /\ a_lo a <= lb data q /\ lb data q < a_hi a /\ a_hi a <= zlen data /\
       a_hi a - a_lo a <= 2 * c_eps c + 2 /\ a_lo a <= a_pos a.
@@ -468,21 +468,43 @@ Section Main.
     cbn zeta in Hwin. fold n. lia.
   Qed.
 
-  Corollary C01_pred_search q : In q data -> float_ok c data (Z.max (hd 0 data) q) ->
+  Corollary C01_pred_search_cap q : In q data -> float_ok_cap c data (Z.max (hd 0 data) q) ->
     exists a, search c ix q = Ok a /\ C01_pred_b (c_eps c) data q a = true.
   Proof.
-    intros Hin Hfl. destruct (C01_search q Hin Hfl) as (a & Es & H).
+    intros Hin Hfl. destruct (C01_search_cap q Hin Hfl) as (a & Es & H).
     exists a. split; [exact Es|]. unfold C01_pred_b. lia.
   Qed.
 
   (* C07: every level of the descent touches at most 2*EpsilonRecursive+3 segments, starting at the window *)
-  Theorem C07_route_trace_partial q : q <= last_z data -> float_ok c data (Z.max (hd 0 data) q) ->
+  Theorem C07_route_trace_partial_cap q : q <= last_z data -> float_ok_cap c data (Z.max (hd 0 data) q) ->
     exists a tr, search_tr c ix q = Ok (a, tr) /\
       Forall (fun t => let '(l, wlo, f, la) := t in la - f + 1 <= 2 * c_epsrec c + 3 /\ wlo <= f) tr.
   Proof.
     intros Hq Hfl. destruct (search_pos q Hq Hfl) as (pos & tr & Es & _ & _ & _ & Htr).
     eexists. exists tr. split; [exact Es|]. exact Htr.
   Qed.
+
+  (* the same under the stronger hypothesis float_ok (eval_ok without the cap disjunct) *)
+  Theorem C02_search_partial q : q <= last_z data -> float_ok c data (Z.max (hd 0 data) q) ->
+    exists a, search c ix q = Ok a /\
+      0 <= a_lo a /\ a_lo a <= lb data q /\ lb data q <= a_hi a /\ a_hi a <= zlen data /\
+      a_hi a - a_lo a <= 2 * c_eps c + 2 /\ a_lo a <= a_pos a.
+  Proof. intros Hq Hfl. exact (C02_search_partial_cap q Hq (float_ok_cap_of _ _ _ Hfl)). Qed.
+
+  Theorem C01_search q : In q data -> float_ok c data (Z.max (hd 0 data) q) ->
+    exists a, search c ix q = Ok a /\
+      0 <= a_lo a /\ a_lo a <= lb data q /\ lb data q < a_hi a /\ a_hi a <= zlen data /\
+      a_hi a - a_lo a <= 2 * c_eps c + 2 /\ a_lo a <= a_pos a.
+  Proof. intros Hq Hfl. exact (C01_search_cap q Hq (float_ok_cap_of _ _ _ Hfl)). Qed.
+
+  Corollary C01_pred_search q : In q data -> float_ok c data (Z.max (hd 0 data) q) ->
+    exists a, search c ix q = Ok a /\ C01_pred_b (c_eps c) data q a = true.
+  Proof. intros Hq Hfl. exact (C01_pred_search_cap q Hq (float_ok_cap_of _ _ _ Hfl)). Qed.
+
+  Theorem C07_route_trace_partial q : q <= last_z data -> float_ok c data (Z.max (hd 0 data) q) ->
+    exists a tr, search_tr c ix q = Ok (a, tr) /\
+      Forall (fun t => let '(l, wlo, f, la) := t in la - f + 1 <= 2 * c_epsrec c + 3 /\ wlo <= f) tr.
+  Proof. intros Hq Hfl. exact (C07_route_trace_partial_cap q Hq (float_ok_cap_of _ _ _ Hfl)). Qed.
 End Main.
 
 Print Assumptions C02_search_partial.
